@@ -98,6 +98,9 @@ func hashFile(p string) string {
 }
 
 // Load loads the repository. goos == "" means the host OS.
+// loadOverlay, when set, adds in-memory files to the load (positive fixtures, see fixtures.go).
+var loadOverlay map[string][]byte
+
 func Load(repo, goos string, needSSA bool) (*Prog, error) {
 	modFiles := []string{"go.mod", "go.sum", "go.work", "go.work.sum", "schema/go.mod", "schema/go.sum"}
 	before := map[string]string{}
@@ -127,7 +130,7 @@ func Load(repo, goos string, needSSA bool) (*Prog, error) {
 	mode := packages.NeedName | packages.NeedFiles | packages.NeedCompiledGoFiles | packages.NeedImports |
 		packages.NeedTypes | packages.NeedTypesSizes | packages.NeedSyntax | packages.NeedTypesInfo | packages.NeedDeps | packages.NeedModule
 	fset := token.NewFileSet()
-	cfg := &packages.Config{Mode: mode, Dir: repo, Env: env, Fset: fset, Tests: false}
+	cfg := &packages.Config{Mode: mode, Dir: repo, Env: env, Fset: fset, Tests: false, Overlay: loadOverlay}
 	pkgs, err := packages.Load(cfg, "./...", "./schema/...")
 	if err != nil {
 		return nil, fmt.Errorf("packages.Load: %v", err)
